@@ -23,14 +23,56 @@ pub struct Entry {
     l: Layout,
     bin: BinFn,
     un: UnFn,
+    shift: fn(usize, u128, u32) -> Out,
+    fold: fn(usize, &[u128]) -> Out,
 }
 
 macro_rules! entry {
     ($T:ty, S) => {
-        Entry { l: <$T as Lay>::LAYOUT, bin: bin::<$T>, un: un_signed::<$T> }
+        Entry { l: <$T as Lay>::LAYOUT, bin: bin::<$T>, un: un_signed::<$T>, shift: shift::<$T>, fold: fold::<$T> }
     };
     ($T:ty, U) => {
-        Entry { l: <$T as Lay>::LAYOUT, bin: bin::<$T>, un: un::<$T> }
+        Entry { l: <$T as Lay>::LAYOUT, bin: bin::<$T>, un: un::<$T>, shift: shift::<$T>, fold: fold::<$T> }
+    };
+}
+pub const SHIFT_OPS: [&str; 8] = ["checked_shl", "wrapping_shl", "overflowing_shl", "shl", "checked_shr", "wrapping_shr", "overflowing_shr", "shr"];
+pub const FOLD_OPS: [&str; 4] = ["sum", "sum&", "product", "product&"];
+/// shifts and iterator folds of plain fixed-point numbers: no property speaks about their values, they are
+/// executed for C11 (profile independence of "all public functions") only
+macro_rules! define_extra {
+    () => {
+        pub fn shift<F: Lay>(op: usize, a: u128, n: u32) -> Out {
+            let x = F::from_raw(a);
+            match op {
+                0 => Out::O(x.checked_shl(n).map(|y| y.raw())),
+                1 => Out::V(x.wrapping_shl(n).raw()),
+                2 => {
+                    let (y, o) = x.overflowing_shl(n);
+                    Out::P(y.raw(), o)
+                }
+                3 => Out::V((x << n).raw()),
+                4 => Out::O(x.checked_shr(n).map(|y| y.raw())),
+                5 => Out::V(x.wrapping_shr(n).raw()),
+                6 => {
+                    let (y, o) = x.overflowing_shr(n);
+                    Out::P(y.raw(), o)
+                }
+                _ => Out::V((x >> n).raw()),
+            }
+        }
+        pub fn fold<F: Lay>(which: usize, xs: &[u128]) -> Out
+        where
+            F: core::iter::Sum<F> + core::iter::Product<F>,
+            for<'a> F: core::iter::Sum<&'a F> + core::iter::Product<&'a F>,
+        {
+            let v: Vec<F> = xs.iter().map(|&a| F::from_raw(a)).collect();
+            match which {
+                0 => Out::V(v.iter().cloned().sum::<F>().raw()),
+                1 => Out::V(v.iter().sum::<F>().raw()),
+                2 => Out::V(v.iter().cloned().product::<F>().raw()),
+                _ => Out::V(v.iter().product::<F>().raw()),
+            }
+        }
     };
 }
 macro_rules! group {
@@ -38,6 +80,7 @@ macro_rules! group {
         mod $g {
             use super::*;
             define_ops!();
+            define_extra!();
             pub fn register(v: &mut Vec<Entry>) {
                 $( v.push(entry!($T, $s)); )*
             }
@@ -97,6 +140,8 @@ struct Job {
     b: std::sync::Arc<Vec<u128>>,
     unary: bool,
     binary: bool,
+    /// second operands of the Sum/Product folds (C11 mode): the first values of the layout's unary domain
+    partners: Vec<u128>,
 }
 
 struct Domain {
@@ -168,6 +213,7 @@ fn run_job(tab: &[Entry], job: &Job, prop: Prop, tier: Tier) -> JobOut {
     let mut tally = Tally::new(nun + nbin);
     let mut dig: Vec<std::collections::hash_map::DefaultHasher> = (0..nun + nbin).map(|_| std::collections::hash_map::DefaultHasher::new()).collect();
     let mut returned = vec![];
+    let mut xdig: Vec<std::collections::hash_map::DefaultHasher> = (0..12).map(|_| std::collections::hash_map::DefaultHasher::new()).collect();
     let sel_un: Vec<bool> = UN_OPS.iter().map(|o| prop.selects(o) && (!o.signed_only || l.signed)).collect();
     let sel_bin: Vec<bool> = BIN_OPS.iter().map(|o| prop.selects(o)).collect();
     let c11 = prop == Prop::C11;
@@ -232,6 +278,42 @@ fn run_job(tab: &[Entry], job: &Job, prop: Prop, tier: Tier) -> JobOut {
             }
             if any && a != 0 {
                 nontrivial += 1;
+            }
+            if c11 {
+                // shifts: handled forms with every amount; the plain operators only with amounts below the width
+                // (beyond it they are operations without overflow handling: a profile-dependent panic is permitted)
+                for n in [0u32, 1, l.w / 2, l.w - 1, l.w, l.w + 1, 2 * l.w, u32::MAX] {
+                    for (i, name) in SHIFT_OPS.iter().enumerate() {
+                        if (i == 3 || i == 7) && n >= l.w {
+                            continue;
+                        }
+                        let got = subject(|| (e.shift)(i, a, n)).unwrap_or(Out::Panic);
+                        transitions += 1;
+                        let _ = name;
+                        xdig[i].write_u128(a);
+                        xdig[i].write_u32(n);
+                        got.feed(&mut xdig[i]);
+                    }
+                }
+                // Sum / Product over short sequences whose partial results are all representable
+                for &b in job.partners.iter() {
+                    let xs = [a, b, a];
+                    let s1 = l.z(a).add(l.z(b));
+                    let s2 = s1.add(l.z(a));
+                    let p1 = l.z(a).mul(l.z(b)).shr_floor(l.frac);
+                    let p2 = if l.fits(&p1) { l.z(l.wrap(&p1)).mul(l.z(a)).shr_floor(l.frac) } else { p1 };
+                    for which in 0..4 {
+                        let ok = if which < 2 { l.fits(&s1) && l.fits(&s2) } else { l.fits(&p1) && l.fits(&p2) };
+                        if !ok {
+                            continue;
+                        }
+                        let got = subject(|| (e.fold)(which, &xs)).unwrap_or(Out::Panic);
+                        transitions += 1;
+                        xdig[8 + which].write_u128(a);
+                        xdig[8 + which].write_u128(b);
+                        got.feed(&mut xdig[8 + which]);
+                    }
+                }
             }
         }
         if job.binary && sel_bin.iter().any(|&x| x) {
@@ -306,7 +388,7 @@ fn run_job(tab: &[Entry], job: &Job, prop: Prop, tier: Tier) -> JobOut {
     rep.nontrivial_states = nontrivial;
     rep.transitions = transitions;
     rep.judged = judged;
-    JobOut { rep, dig: dig.into_iter().map(|h| h.finish()).collect(), returned }
+    JobOut { rep, dig: dig.into_iter().chain(xdig.into_iter()).map(|h| h.finish()).collect(), returned }
 }
 
 fn build_jobs(tab: &[Entry], tier: Tier, only: Option<&str>) -> (Vec<Job>, Vec<String>) {
@@ -330,13 +412,13 @@ fn build_jobs(tab: &[Entry], tier: Tier, only: Option<&str>) -> (Vec<Job>, Vec<S
         let empty = std::sync::Arc::new(vec![]);
         // unary: chunks of 8192 first operands
         for ch in d.un.chunks(8192) {
-            jobs.push(Job { ei, a: ch.to_vec(), b: empty.clone(), unary: true, binary: false });
+            jobs.push(Job { ei, a: ch.to_vec(), b: empty.clone(), unary: true, binary: false, partners: d.un.iter().cloned().take(6).collect() });
         }
         for (av, bv) in &d.bin {
             // aim at <= 2^16 pairs per job
             let per = (65536 / bv.len().max(1)).max(1);
             for ch in av.chunks(per) {
-                jobs.push(Job { ei, a: ch.to_vec(), b: bv.clone(), unary: false, binary: true });
+                jobs.push(Job { ei, a: ch.to_vec(), b: bv.clone(), unary: false, binary: true, partners: vec![] });
             }
         }
     }
@@ -390,7 +472,7 @@ fn cmd_run(args: &Args) {
     }
     rep.layouts = layouts.len() as u64;
     if prop == Prop::C11 {
-        let names: Vec<&str> = UN_OPS.iter().chain(BIN_OPS.iter()).map(|o| o.name).collect();
+        let names: Vec<&str> = UN_OPS.iter().chain(BIN_OPS.iter()).map(|o| o.name).chain(SHIFT_OPS.iter().cloned()).chain(FOLD_OPS.iter().cloned()).collect();
         for ((ei, i), h) in digs {
             rep.digests.insert(format!("{} {}", tab[ei].l.name(), names[i]), format!("{:016x}", h.finish()));
         }
@@ -444,6 +526,17 @@ fn cmd_replay(args: &[String]) -> i32 {
     let l = Layout::parse(&args[0]).expect("layout");
     let tab = table();
     let e = tab.iter().find(|e| e.l == l).expect("layout not found");
+    if let Some(i) = SHIFT_OPS.iter().position(|n| *n == args[1]) {
+        let got = subject(|| (e.shift)(i, parse_hex(&args[2]), args[3].parse().unwrap())).unwrap_or(Out::Panic);
+        println!("profile:  {}\ncall:     {} {} {} {}\nobserved: {}\n(no property states a value for shifts of plain fixed-point numbers; compare the two profiles)", vcore::profile_name(), l.name(), args[1], args[2], args[3], got);
+        return 0;
+    }
+    if let Some(which) = FOLD_OPS.iter().position(|n| *n == args[1]) {
+        let xs: Vec<u128> = args[2..].iter().map(|s| parse_hex(s)).collect();
+        let got = subject(|| (e.fold)(which, &xs)).unwrap_or(Out::Panic);
+        println!("profile:  {}\ncall:     {} {} {:x?}\nobserved: {}\n(compare the two profiles)", vcore::profile_name(), l.name(), args[1], xs, got);
+        return 0;
+    }
     let (unary, i, op) = find_op(&args[1]).expect("unknown op");
     let a = parse_hex(&args[2]);
     let (got, ex, kf) = if unary {
@@ -519,10 +612,40 @@ fn cmd_dump(args: &Args) {
     let tier = Tier::parse(&args.get("tier").unwrap_or("quick".into()));
     let tab = table();
     let e = tab.iter().find(|e| e.l == l).unwrap();
-    let (unary, i, op) = find_op(&args.v[2]).expect("op");
     let d = domain(l, tier);
     let mut o = std::io::BufWriter::new(std::io::stdout().lock());
     use std::io::Write;
+    if let Some(i) = SHIFT_OPS.iter().position(|n| *n == args.v[2]) {
+        for &a in &d.un {
+            for n in [0u32, 1, l.w / 2, l.w - 1, l.w, l.w + 1, 2 * l.w, u32::MAX] {
+                if (i == 3 || i == 7) && n >= l.w {
+                    continue;
+                }
+                let got = subject(|| (e.shift)(i, a, n)).unwrap_or(Out::Panic);
+                writeln!(o, "arith {} {} {:#x} {}\t{}", l.name(), SHIFT_OPS[i], a, n, got).unwrap();
+            }
+        }
+        return;
+    }
+    if let Some(which) = FOLD_OPS.iter().position(|n| *n == args.v[2]) {
+        let partners: Vec<u128> = d.un.iter().cloned().take(6).collect();
+        for &a in &d.un {
+            for &b in &partners {
+                let xs = [a, b, a];
+                let s1 = l.z(a).add(l.z(b));
+                let s2 = s1.add(l.z(a));
+                let p1 = l.z(a).mul(l.z(b)).shr_floor(l.frac);
+                let p2 = if l.fits(&p1) { l.z(l.wrap(&p1)).mul(l.z(a)).shr_floor(l.frac) } else { p1 };
+                let ok = if which < 2 { l.fits(&s1) && l.fits(&s2) } else { l.fits(&p1) && l.fits(&p2) };
+                if ok {
+                    let got = subject(|| (e.fold)(which, &xs)).unwrap_or(Out::Panic);
+                    writeln!(o, "arith {} {} {:#x} {:#x} {:#x}\t{}", l.name(), FOLD_OPS[which], a, b, a, got).unwrap();
+                }
+            }
+        }
+        return;
+    }
+    let (unary, i, op) = find_op(&args.v[2]).expect("op");
     if unary {
         for &a in &d.un {
             if (op.base == "int" || op.base == "frac") && l.int_bits() == 0 {
